@@ -54,7 +54,8 @@ def rank_main():
     rec = scenario.rank_fn(spec)(rank, world)
     dist.barrier()
     with open(outfile, 'wb') as f:
-        pickle.dump(dict(events=events, grads=[g.clone() for g in rec['grads']]), f)
+        pickle.dump(dict(events=events, grads=[g.clone() for g in rec['grads']],
+                         rec={k: rec[k] for k in ('held', 'mem', 'assignment', 'layer_names', 'steps', 'loads') if k in rec}), f)
     dist.destroy_process_group()
 
 
